@@ -297,9 +297,15 @@ class Ctx:
                     with tempfile.NamedTemporaryFile("w", suffix=".smt2", prefix="pw_", delete=False) as tf:
                         tf.write(sol2.to_smt2())
                     try:
-                        out = subprocess.run(["z3-new", "-T:8", tf.name], capture_output=True, text=True).stdout.strip()
+                        out = subprocess.run(["z3-new", "-T:30", tf.name], capture_output=True, text=True).stdout.strip()
                         if out.splitlines()[:1] == ["unsat"]:
                             rr = z3.unsat
+                        elif out.splitlines()[:1] != ["sat"]:
+                            out = subprocess.run(["z3", "-T:30", tf.name], capture_output=True, text=True).stdout.strip()
+                            if out.splitlines()[:1] == ["unsat"]:
+                                rr = z3.unsat
+                            elif out.splitlines()[:1] != ["sat"]:
+                                self.pointwise_inconclusive = True
                     finally:
                         os.unlink(tf.name)
                 if os.environ.get("SIGMA_DEBUG"):
@@ -379,7 +385,13 @@ class Ctx:
         if isinstance(goal, bool):
             goal = z3.BoolVal(goal)
         goal = poly_normalise(goal)
+        self.pointwise_inconclusive = False
         goal = self.sigma_pointwise(goal)
+        if self.pointwise_inconclusive:
+            # the sums in this goal could not be compared (solver budget): a `sat` answer for the remaining goal, in which
+            # they are unrelated constants, would be spurious -- the driver reports UNDECIDED for it, never a violation
+            meta = dict(meta or {})
+            meta["sum_congruence"] = "inconclusive"
         hyps = relevant(self.hypotheses(extra_terms), goal)
         self.obligations.append(
             Obligation(name, hyps, goal, list(self.prefix[: self.cursor]), kind, meta, getvals)
